@@ -67,6 +67,18 @@ CLAIMS = {
    technique="table lifting from the AST (encoder/decoder switch cases -> primitive, width, byte order, conversion chain, accessor; InfoElementLength; 524 registry literals) compared with a reference table transcribed from RFC 7011 s6.1/s7; prefix-scheme extraction from five sites on SSA with normalised comparisons; length-accounting shape rules",
    text="Decides agreement of the codec's tables: each supported type's encoder case and decoder case independently match the RFC's width/byte order/sign/float/boolean/raw encoding; InfoElementLength and every registry literal agree with that width; getters/constructors match the concrete element types; unsupported labels error on both sides; all five sites of the variable-length prefix implement 255/+1/0xFF+2/65535; one GetLength() is used for sizing, guarding, advancing and accumulating record lengths. This is the structural reason a round trip can work for every value; per-value equality is not enumerated.",
    note="Trusted: encoding/binary, math.Float*bits; the transcription of the RFC tables in checker/layout.go.", ref="DESIGN.md §5 C15"),
+ "C01": dict(
+   technique="writer/reader table and layout agreement: codec cases vs RFC table (AST), reader-side header/template/field-specifier extraction from util.Decode target types and bit operations (SSA), registry literal table, prefix-scheme sites, framing rules imported from C11, who-may-produce/transport reachability",
+   text="Decides the structural reason an exporter->collector round trip can be faithful: inverse codec signatures per type and matching widths across InfoElementLength/524 registry literals/reverse registry; one prefix scheme at all five sites and the same length-selection test on both sides; the reader consumes the message header, template header and field specifier with the widths, order, byte order and enterprise-bit handling the writer produces; both registry maps hold the same element; every transport decodes through the one decodePacket with exact TCP framing; the observation domain flows from configuration to header to delivered message. Value equality over live sockets, TLS/DTLS transparency and record counts 'that fit' are not decided.",
+   note="Trusted: encoding/binary.Read, RFC transcription; writer side conformity is C02's.", ref="DESIGN.md §5 C01"),
+ "C02": dict(
+   technique="encoder-only layout extraction (fixed-offset big-endian writes per setter/record primitive on SSA, encoder switch cases on the AST) compared with a reference transcribed from RFC 7011; SSA value identity for message length vs buffer size and the record copy loop; must-pass-through for UpdateLenInHeader; imported set-length pairing and thread-sharing rules",
+   text="Decides well-formedness of what the exporter writes against an oracle that shares no code with the library (the RFC tables in the checker): header offsets/widths/byte order, version 10, set id 2 vs template id, set length field, template record header, field specifier with enterprise bit 0x80 and 4-byte enterprise number iff enterprise-specific, every value encoding and the section-7 length prefix; header length field == size of the buffer returned == 16 + set length; header, set header and each record copied contiguously at their reported lengths; exactly one set; set length updated before every send. Symmetric encode/decode mistakes that round-trip tests cannot see are visible here. Bytes observed at the peer are not decided.",
+   note="Trusted: the RFC transcription; encoding/binary.", ref="DESIGN.md §5 C02"),
+ "C16": dict(
+   technique="who-may-write + path pairing of 'append record' with 'length += record length' (SSA path rule), reset-completeness by field-write sets and constructor/reset value normal forms, delegation/loop shape rules for the add paths, imported length-accounting and assembly rules",
+   text="Decides the bookkeeping invariants structurally: set.length only changes together with appending the same record (on every path, incl. error exits), starts/resets at SetHeaderLen; every field a builder method mutates is re-initialised by ResetSet to the constructor's value; AddRecord delegates with 0 extra elements; both data paths establish the same record summary (id, fieldCount=len, sum of GetLength, order) and both template paths use the single addInfoElement primitive with PrepareRecord once; reported record lengths equal what is serialized. Byte identity for concrete element lists is implied by the shared primitives, not computed.",
+   note="Evaluated for encoding builders (isDecoding=false).", ref="DESIGN.md §5 C16"),
 }
 NOT_YET = "rules designed (DESIGN.md §5) but not built yet in this round; no claim is made until the check exists"
 props=[json.loads(l) for l in open('/verif/properties.jsonl')]
